@@ -1079,7 +1079,8 @@ theorem trxTail_first (padding : Nat) (d desc : List Tok) (bs : List BookingT) (
   exact ⟨this.1, this.2.2.1, this.2.2.2⟩
 
 theorem dir_trx_complete (padding : Nat) (aT : Option AccrualT) (pT : Option (List (List Tok))) (d desc : List Tok)
-    (bs : List BookingT) (hok : (DirT.transaction aT pT d desc bs).ok) (off : Nat) (r : List Tok) (hr : GapStart r) :
+    (bs : List BookingT) (hok : (DirT.transaction aT pT d desc bs).ok) (hcan : (DirT.transaction aT pT d desc bs).canon)
+    (off : Nat) (r : List Tok) (hr : GapStart r) :
     ∃ d2 off', parseDirective ⟨off, renderT padding (.transaction aT pT d desc bs) ++ r⟩ = .ok d2 ⟨off', r⟩ ∧
       ∀ text, Good text ⟨off, renderT padding (.transaction aT pT d desc bs) ++ r⟩ →
         viewDirective text d2 = some (DirT.transaction aT pT d desc bs).bytes := by
@@ -1123,7 +1124,7 @@ theorem dir_trx_complete (padding : Nat) (aT : Option AccrualT) (pT : Option (Li
       obtain ⟨v1, v2, v3⟩ := view1 text G1
       simp only [viewDirective]
       exact viewTransaction_of (by rw [had]; simp [AccrRel, Accrual.zero, Range.empty, Range.zero])
-        (by rw [had]; exact ⟨pe, pv, tsok⟩) v1 v2 v3
+        (by rw [had]; exact ⟨pe, pv, fun t ht => ⟨tsok t ht, hcan.2.1 ts rfl t ht⟩⟩) v1 v2 v3
   | some a =>
     have aok := hao a rfl
     cases pT with
@@ -1145,7 +1146,7 @@ theorem dir_trx_complete (padding : Nat) (aT : Option AccrualT) (pT : Option (Li
       obtain ⟨av, G1⟩ := aview text hG
       obtain ⟨v1, v2, v3⟩ := view1 text G1
       simp only [viewDirective]
-      exact viewTransaction_of (by rw [had]; exact ⟨ae, av, aok⟩)
+      exact viewTransaction_of (by rw [had]; exact ⟨ae, av, aok, hcan.1 a rfl⟩)
         (by rw [had]; simp [PerfRel, Performance.zero, Range.empty, Range.zero]) v1 v2 v3
     | some ts =>
       have tsok := hpo ts rfl
@@ -1176,15 +1177,16 @@ theorem dir_trx_complete (padding : Nat) (aT : Option AccrualT) (pT : Option (Li
       obtain ⟨pv, G2⟩ := pview text G1
       obtain ⟨v1, v2, v3⟩ := view1 text G2
       simp only [viewDirective]
-      exact viewTransaction_of (by rw [had]; exact ⟨ae, av, aok⟩) (by rw [had]; exact ⟨pe, pv, tsok⟩) v1 v2 v3
+      exact viewTransaction_of (by rw [had]; exact ⟨ae, av, aok, hcan.1 a rfl⟩) (by rw [had]; exact ⟨pe, pv, fun t ht => ⟨tsok t ht, hcan.2.1 ts rfl t ht⟩⟩) v1 v2 v3
 
 /-- **completeness**: parsing the rendering of a well-formed directive, followed by a gap or the end of the text,
 consumes exactly the rendering and yields a directive with the same fields -/
-theorem parseDirective_complete (padding : Nat) (v : DirT) (hok : v.ok) (off : Nat) (r : List Tok) (hr : GapStart r) :
+theorem parseDirective_complete (padding : Nat) (v : DirT) (hok : v.ok) (hcan : v.canon) (off : Nat) (r : List Tok)
+    (hr : GapStart r) :
     ∃ d2 off', parseDirective ⟨off, renderT padding v ++ r⟩ = .ok d2 ⟨off', r⟩ ∧
       ∀ text, Good text ⟨off, renderT padding v ++ r⟩ → viewDirective text d2 = some v.bytes := by
   cases v with
-  | transaction aT pT d desc bs => exact dir_trx_complete padding aT pT d desc bs hok off r hr
+  | transaction aT pT d desc bs => exact dir_trx_complete padding aT pT d desc bs hok hcan off r hr
   | «open» d a => exact dir_open_complete d a hok.1 hok.2 off r hr
   | close d a => exact dir_close_complete d a hok.1 hok.2 off r hr
   | price d c p t =>
